@@ -1,5 +1,7 @@
 SPECIFICATION Spec
 CONSTANTS
+  Reps = {1}
+  Vias = {"text"}
   N = 5
   MaxCalls = 2
   ArgVals = {1, 2, 4, 5, 6}
